@@ -57,6 +57,9 @@ func verifDir() string {
 // readBase reads a base input. `@<path>` is relative to /verif (minimised corpus inputs),
 // anything else relative to the repository under test.
 func readBase(path string) ([]byte, error) {
+	if path == "gen:cb" { // the base of the generated chunk-boundary inputs (`cb:` descriptors build the whole input)
+		return []byte{}, nil
+	}
 	// gen:rep:<hex pattern>:<n> — a synthetic base: the pattern repeated n times (deep nesting seeds)
 	if strings.HasPrefix(path, "gen:rep:") {
 		ps := strings.Split(path[8:], ":")
@@ -919,6 +922,10 @@ func runJob(st *wstate, jobID string, from int, single bool, text string) {
 	}
 	if strings.HasPrefix(text, "near ") {
 		runNear(st, jobID, from, single, text)
+		return
+	}
+	if strings.HasPrefix(text, "chunk ") {
+		runChunk(st, jobID, from, single, text)
 		return
 	}
 	if !strings.HasPrefix(text, "batch ") {
